@@ -203,6 +203,20 @@ def legacy_impl(a):
     ok = ok and type(got) == type(v) and got == v
     if not ok:
         LAST_DETAIL[0] = "a %s blob %r relabelled with the legacy reference dbfs.%s is read back as %r" % (kind, v, kind, got)
+    if ok:
+        # committing a path to the legacy blob under 'full': byte-identical copy + record, and the path resolves
+        from collections import OrderedDict
+
+        try:
+            store.sync_paths(OrderedDict([("/lg/p", key)]))
+            files = _data_files(fs)
+            blob = fs.read_file("/dbfs/store/int/blobs/" + key)
+            if files.get("lg/p") != blob or "_dds_meta/lg/p" not in files or store.fetch_paths(["/lg/p"]).get("/lg/p") != key:
+                ok = False
+                LAST_DETAIL[0] = "committing a path to a blob with the legacy reference dbfs.%s under 'full' leaves %r" % (kind, sorted(files))
+        except Exception as e:
+            ok = False
+            LAST_DETAIL[0] = "committing a path to a blob with the legacy reference dbfs.%s under 'full' raises %s" % (kind, type(e).__name__)
     return h.verdict(ok)
 
 
